@@ -61,6 +61,23 @@ theorem rsplitOnce_spec {c : Char} {s a b : Str} (h : rsplitOnce c s = some (a, 
     have := congrArg List.reverse e
     simpa using this
 
+theorem hostPart_sub (nl : Str) : ∀ c ∈ hostPart nl, c ∈ nl := by
+  intro c hc
+  unfold hostPart at hc
+  cases hr : rsplitOnce '@' nl with
+  | none => rw [hr] at hc; exact hc
+  | some ab =>
+    obtain ⟨a, b⟩ := ab
+    rw [hr] at hc
+    obtain ⟨e, _⟩ := rsplitOnce_spec hr
+    rw [e]; simp [show c ∈ b from hc]
+
+theorem rebracket_nobracket {nl H : Str} (hb : '[' ∉ nl) : rebracket nl H = H := by
+  unfold rebracket
+  rw [if_neg]
+  intro h
+  exact hb (hostPart_sub nl _ (by simpa using h))
+
 /-- `normHost` is idempotent for the ASCII lower-casing -/
 theorem normHost_idem (env : Env) (hl0 : AsciiLower env) (h : Str) : normHost env (normHost env h) = normHost env h := by
   have hl : ∀ s, env.lowerU s = s.map lowerAscii := hl0
@@ -284,7 +301,7 @@ theorem parseSplit_output (env : Env) (hl : AsciiLower env) (sp : Split) (P : Pa
                 · intro c hc
                   exact ⟨fun hh => hok.queryNo (hh ▸ hc), hok.safe c (by simp [hc])⟩
               refine ⟨hplain, portOf_le _ _ hport, hpath, ?_⟩
-              rw [hfragE, rebracket_plain (fun hm => (hplain.chars _ hm).2.2.1 rfl)]
+              rw [hfragE, rebracket_nobracket hnb]
               have hauth : (if port?.getD 1965 ≠ 1965 then host ++ [':'] ++ natToStr (port?.getD 1965) else host)
                   = authorityOf host (port?.getD 1965) := rfl
               rw [hauth]
